@@ -137,6 +137,7 @@ type chanModel struct {
 	lastDeleteStep int
 	hadConsumer bool
 	VoidAt      time.Time
+	unpausedAt  time.Time
 	Unordered   bool // a consumer with unbounded output buffering: receipt order is not send order
 	discarded   map[string]int // pub key -> step at which the discard was acknowledged
 	discardedAt map[string]time.Time
@@ -221,6 +222,7 @@ type qWorld struct {
 	badReq   []*consumer
 	stolenAtExit int64
 	readyAtExit  map[string]bool
+	lastRestartAt time.Time
 	burstOps []Op
 	lastStats *statsDoc
 }
@@ -1031,6 +1033,7 @@ func (w *qWorld) applyAdmin(what, topic, ch string, resp HTTPResp, burst bool) {
 	case "unpause_channel":
 		if c := w.chans[ck]; c != nil {
 			c.Paused, c.PausedStep = false, w.epoch
+			c.unpausedAt = time.Now()
 		}
 	case "empty_channel":
 		if c := w.chans[ck]; c != nil {
